@@ -71,6 +71,7 @@ structure Leaf where
   rid : Nat                    -- identifies the handler chain (index of the registration)
   cons : List (Bytes × Nat)    -- `[]route.Constraint` as (parameter name, constraint id)
   path : Bytes                 -- `node.path`
+  names : List Bytes           -- `node.paramNames`: the parameter names of the route's own pattern, in path order
 deriving DecidableEq, Repr
 
 structure NodeRec where
@@ -150,10 +151,25 @@ def descendPrefixAsIs : Nodes → Key → List Bytes → Nodes × Key
     if seg = [] then descendPrefixAsIs ns cur rest
     else descendPrefixAsIs (setK (cur ++ [ESeg.s seg]) id ns) (cur ++ [ESeg.s seg]) rest
 
+/-- the `names = append(names, segment[1:])` of the two registration loops: the `:name` segments in order -/
+def segNames : List Bytes → List Bytes
+  | [] => []
+  | (':' :: n) :: rest => n :: segNames rest
+  | _ :: rest => segNames rest
+
+/-- `node.paramNames` as `addRouteWithConstraints` leaves it next to `node.path` (since the K01a repair):
+nothing for the root and for a parameter-free path (`staticPaths`), `filepath` after the prefix's names
+for a `/*` route, the `:name` segments for the standard branch. The Go code collects the list inside the
+branch loops; it is a function of the path alone. -/
+def paramNamesOf (path : Bytes) : List Bytes :=
+  if path = ['/'] ∨ path = [] then []
+  else match cutWildSuffix path with
+    | some pre => if pre = [] then [wildParam] else segNames (splitSlash (trimSlashes pre)) ++ [wildParam]
+    | none => if ¬ path.contains ':' then [] else segNames (splitSlash (trimSlashes path))
+
 /-- `(*node).addRouteWithConstraints(path, handlers, constraints)`; `asIs` selects the wildcard-prefix
 walk as shipped (only used by the K01d witness) -/
-def addRouteGen (asIs : Bool) (t : Tree) (path : Bytes) (rid : Nat) (cons : List (Bytes × Nat)) : Tree :=
-  let lf : Leaf := ⟨rid, cons, path⟩
+def addLeafGen (asIs : Bool) (t : Tree) (path : Bytes) (lf : Leaf) : Tree :=
   if path = ['/'] ∨ path = [] then
     { t with nodes := setK [] (fun r => { r with leaf := some lf }) t.nodes }
   else match cutWildSuffix path with
@@ -170,6 +186,9 @@ def addRouteGen (asIs : Bool) (t : Tree) (path : Bytes) (rid : Nat) (cons : List
       else
         { t with nodes := insertStd lf t.nodes [] (splitSlash (trimSlashes path)) }
 
+def addRouteGen (asIs : Bool) (t : Tree) (path : Bytes) (rid : Nat) (cons : List (Bytes × Nat)) : Tree :=
+  addLeafGen asIs t path ⟨rid, cons, path, paramNamesOf path⟩
+
 def addRoute := addRouteGen false
 
 /-! ### the request context: 8 inline parameter slots and the overflow map -/
@@ -184,10 +203,34 @@ def Ctx.fresh : Ctx := ⟨[], []⟩
 /-- number of inline parameter slots (`paramKeys [8]string`, `paramIdx < 8`) -/
 @[reducible] def inlineSlots : Nat := 8
 
-/-- the parameter write of `getRoute` -/
+/-- a parameter write into the inline slots or, past them, straight into the overflow map (the compiled
+matcher, and `getRoute` as shipped before the K01a repair) -/
 def Ctx.push (c : Ctx) (k v : Bytes) : Ctx :=
   if c.slots.length < inlineSlots then { c with slots := c.slots ++ [(k, v)] }
   else { c with over := SMap.set k v c.over }
+
+/-- the parameter write of `getRoute` (since the K01a repair): inline slot under the node's name while
+there is one, otherwise `overflow = append(overflow, value)` — a local of `getRoute`, kept by position.
+(The Go slice holds the values only; the model keeps the node's name next to each value for the
+as-shipped variant, `bindNames` ignores it.) -/
+def pushT (st : Ctx × List (Bytes × Bytes)) (k v : Bytes) : Ctx × List (Bytes × Bytes) :=
+  if st.1.slots.length < inlineSlots then ({ st.1 with slots := st.1.slots ++ [(k, v)] }, st.2)
+  else (st.1, st.2 ++ [(k, v)])
+
+/-- `paramKeys[i] = name` for the slots in use -/
+def renameSlots : List Bytes → List (Bytes × Bytes) → List (Bytes × Bytes)
+  | n :: ns, (_, v) :: rest => (n, v) :: renameSlots ns rest
+  | _, rest => rest
+
+/-- `bindParamNames(ctx, names, overflow)`: the captured values are named after the matched route's own
+pattern — slot `i` gets `names[i]`, the values past the inline slots go into `Params` under `names[8+j]` -/
+def bindNames (c : Ctx) (names : List Bytes) (ovf : List (Bytes × Bytes)) : Ctx :=
+  { slots := renameSlots (names.take inlineSlots) c.slots,
+    over := SMap.setAll c.over ((names.drop inlineSlots).zip (ovf.map (·.2))) }
+
+/-- as shipped before the repair: the names the nodes hold stay, overflow values sit in `Params` under them -/
+def bindNamesAsIs (c : Ctx) (ovf : List (Bytes × Bytes)) : Ctx :=
+  { c with over := SMap.setAll c.over ovf }
 
 def slotGet (k : Bytes) : List (Bytes × Bytes) → Option Bytes
   | [] => none
@@ -234,39 +277,48 @@ def parsePath (path : Bytes) : List Bytes × Bool :=
 def restOfPath (segs : List Bytes) (trail : Bool) : Bytes :=
   joinSlash segs ++ (if trail then ['/'] else [])
 
-/-- the traversal loop of `getRoute` from the node with key `cur`. `wildUnchecked` selects the
-wildcard branch as shipped before the K01e repair (constraints of a wildcard route never validated). -/
-def walkGen (wildUnchecked : Bool) (sat : Nat → Bytes → Bool) (ns : Nodes) (trail : Bool) : Key → Ctx → List Bytes → Option Leaf × Ctx
-  | _, ctx, [] => (none, ctx)                      -- "reached end of path without matching"
-  | cur, ctx, seg :: rest =>
+/-- the context a leaf's constraints are validated on and its handler sees: `bindParamNames` with the
+leaf's own names (`namesAsIs`: as shipped before the K01a repair, the nodes' names) -/
+def boundCtx (namesAsIs : Bool) (lf : Leaf) (st : Ctx × List (Bytes × Bytes)) : Ctx :=
+  if namesAsIs then bindNamesAsIs st.1 st.2 else bindNames st.1 lf.names st.2
+
+/-- the traversal loop of `getRoute` from the node with key `cur`; the state is the context and the local
+`overflow`. `wildUnchecked` selects the wildcard branch as shipped before the K01e repair (constraints
+of a wildcard route never validated), `namesAsIs` the parameter naming as shipped before the K01a repair. -/
+def walkGen (wildUnchecked namesAsIs : Bool) (sat : Nat → Bytes → Bool) (ns : Nodes) (trail : Bool) :
+    Key → Ctx × List (Bytes × Bytes) → List Bytes → Option Leaf × Ctx
+  | _, st, [] => (none, st.1)                      -- "reached end of path without matching"
+  | cur, st, seg :: rest =>
     let isLast := rest.isEmpty && !trail
-    let next (cur1 : Key) (ctx1 : Ctx) : Option Leaf × Ctx :=
+    let next (cur1 : Key) (st1 : Ctx × List (Bytes × Bytes)) : Option Leaf × Ctx :=
       if isLast then
         match (getK ns cur1).leaf with
-        | some lf => if validate sat lf.cons ctx1 then (some lf, ctx1) else (none, ctx1)
-        | none => (none, ctx1)
-      else walkGen wildUnchecked sat ns trail cur1 ctx1 rest
-    if hasK ns (cur ++ [ESeg.s seg]) then next (cur ++ [ESeg.s seg]) ctx
+        | some lf =>
+          let ctx1 := boundCtx namesAsIs lf st1
+          if validate sat lf.cons ctx1 then (some lf, ctx1) else (none, ctx1)
+        | none => (none, st1.1)
+      else walkGen wildUnchecked namesAsIs sat ns trail cur1 st1 rest
+    if hasK ns (cur ++ [ESeg.s seg]) then next (cur ++ [ESeg.s seg]) st
     else match (getK ns cur).pname with
-      | some key => next (cur ++ [ESeg.p]) (ctx.push key seg)
+      | some key => next (cur ++ [ESeg.p]) (pushT st key seg)
       | none => match (getK ns cur).wild with
         | some lf =>
-          let ctx1 := ctx.push wildParam (restOfPath (seg :: rest) trail)
+          let ctx1 := boundCtx namesAsIs lf (pushT st wildParam (restOfPath (seg :: rest) trail))
           if wildUnchecked || validate sat lf.cons ctx1 then (some lf, ctx1) else (none, ctx1)
-        | none => (none, ctx)
+        | none => (none, st.1)
 
-def walk := walkGen false
+def walk := walkGen false false
 
 /-- `(*node).getRoute(path, ctx)` -/
-def getRouteGen (wildUnchecked : Bool) (sat : Nat → Bytes → Bool) (t : Tree) (path : Bytes) (ctx : Ctx) : Option Leaf × Ctx :=
+def getRouteGen (wildUnchecked namesAsIs : Bool) (sat : Nat → Bytes → Bool) (t : Tree) (path : Bytes) (ctx : Ctx) : Option Leaf × Ctx :=
   if path = ['/'] ∨ path = [] then ((getK t.nodes []).leaf, ctx)
   else match getStatic path t.statics with
     | some lf => (some lf, ctx)
     | none =>
       let (segs, trail) := parsePath path
-      walkGen wildUnchecked sat t.nodes trail [] ctx segs
+      walkGen wildUnchecked namesAsIs sat t.nodes trail [] (ctx, []) segs
 
-def getRoute := getRouteGen false
+def getRoute := getRouteGen false false
 
 /-- `tree.compiled.getRoute(path)`: the per-tree table of static routes built at warm-up holds exactly the
 `staticPaths` entries (nodes reached through edges never carry a parameter-free path); bloom filter and
